@@ -62,8 +62,18 @@ def gen_rich_logical(rng, depth):
 
 
 # accepted spellings outside the RFC grammar that the printer has to cope with: slices written without brackets
-RAW = ["$1:2 3:4", "$1:2", "$:2 1:", "$.a 1:2", "$..1:2", "$[?@ 1:2]", "$1:2.a", "$ 1:2:3 -1:", "$1:2 3:4 5:6:-1", "$.a 0: 1:", "$[?@.a 1: == 2]",
+RAW = ["$.items[?@.n > ^[0].limit]", "$.items[?^[?@.limit == 2]]", "$[?@.a == ^[0].a && $.b]", "^[?@ == ^[0]]", "$[?count(^..*) > 2]",
+       "$1:2 3:4", "$1:2", "$:2 1:", "$.a 1:2", "$..1:2", "$[?@ 1:2]", "$1:2.a", "$ 1:2:3 -1:", "$1:2 3:4 5:6:-1", "$.a 0: 1:", "$[?@.a 1: == 2]",
        "$[?count(@ :2) > 1]", "$ : :", "^1:2 | $ 3:4"]
+
+
+def flip_roots(rng, x, p):
+    """turn some `$`-rooted sub-queries of a filter into fake-root (`^`) ones"""
+    if isinstance(x, list):
+        if len(x) >= 2 and x[0] == "root" and x[1] is False and rng.random() < p:
+            return ["root", True] + [flip_roots(rng, y, p) for y in x[2:]]
+        return [flip_roots(rng, y, p) for y in x]
+    return x
 
 
 def gen(rng, tier):
@@ -82,6 +92,9 @@ def gen(rng, tier):
         else:
             q = None
         if q is not None:
+            if rng.random() < 0.4:
+                q = {"first": {"fake": q["first"]["fake"], "segs": flip_roots(rng, q["first"]["segs"], 0.5)},
+                     "rest": [[o, {"fake": p["fake"], "segs": flip_roots(rng, p["segs"], 0.5)}] for o, p in q["rest"]]}
             sp = Q.Speller(random.Random(rng.randrange(1 << 30)), blanks=0.1, std=rng.random() < 0.4)
             text = Q.render_query(q, sp)
         else:
